@@ -89,6 +89,9 @@ func (o *Options) Apply(r record.Record) {
 		r.Meta().SetAbsoluteExpiry(o.AlwaysSetAbsoluteExpiry)
 	} else if o.AlwaysSetRelativateExpiry > 0 {
 		r.Meta().SetRelativateExpiry(o.AlwaysSetRelativateExpiry)
+		// The relative expiry is based on the current time: it only takes
+		// effect when the metadata is updated after it was set.
+		r.Meta().Update()
 	}
 }
 
